@@ -80,7 +80,10 @@ func (t *vfTTY) WriteByte(b byte) error {
 	t.nrecv++
 	return nil
 }
-func (t *vfTTY) AttachTo(c console.Device)        { t.attached = c; t.nattach++ }
+
+// AttachTo behaves like the shipped VT's: attaching (re)allocates the terminal's buffer, so whatever the terminal
+// showed before is gone (a second attach of the live terminal would wipe the boot log: seeded C16-w5m1).
+func (t *vfTTY) AttachTo(c console.Device)        { t.attached = c; t.nattach++; t.nrecv = 0 }
 func (t *vfTTY) State() tty.State                 { return t.state }
 func (t *vfTTY) SetState(s tty.State)             { t.state = s }
 func (t *vfTTY) CursorPosition() (uint32, uint32) { return 1, 1 }
@@ -207,6 +210,7 @@ func Verif_C16_bringup() {
 		zzverif.Assert(t.attached == console.Device(conss[firstCons]), "whichever comes up first, the terminal ends up attached to the console")
 		zzverif.Assert(t.state == tty.StateActive, "and active")
 		zzverif.Assert(kfmt.GetOutputSink() == io.Writer(t), "and receives kernel log output")
+		zzverif.Assert(t.nattach == 1, "the active terminal is attached once: later terminals and consoles do not re-link the live pair")
 		zzverif.Assert(t.recvWhileDetached == 0, "no log output is sent to a terminal that is not attached to a console")
 		zzverif.Assert(t.nrecv == ne, "everything logged appears on the terminal exactly once")
 		if t.nrecv == ne {
